@@ -2,7 +2,7 @@
 
 from typing import Any, Dict, List, Mapping, Optional, Sequence
 
-from ..exc import ValidationError
+from ..exc import ValidationError, VariablesCoercionError
 from ..lang.ast import (
     Document,
     FragmentDefinition,
@@ -10,6 +10,7 @@ from ..lang.ast import (
     Selection,
 )
 from ..schema import Schema
+from .coerce_value import coerce_variable_values
 from .collect_fields import collect_fields_untyped
 
 
@@ -104,12 +105,22 @@ class MaxDepthValidationRule:
             ):
                 continue
 
+            # @skip / @include need the operation's coerced variables (declared
+            # defaults included), as the execution would see them. Variables
+            # which do not coerce are reported by the execution stage.
+            try:
+                op_variables = coerce_variable_values(
+                    schema, op, variables
+                )  # type: Mapping[str, Any]
+            except VariablesCoercionError:
+                op_variables = variables
+
             # Depth is the number of levels nested below the root fields, so
             # a flat (or empty after @skip / @include) operation has depth 0.
             depth = max(
                 0,
                 _nesting_levels(
-                    op.selection_set.selections, fragments, variables
+                    op.selection_set.selections, fragments, op_variables
                 )
                 - 1,
             )
